@@ -185,7 +185,7 @@ def _c11():
     src = open(os.path.join(os.path.dirname(HERE), "kani", "src", "c11.rs")).read()
     quick = {"c11_fixed8_len0", "c11_fixed8_len7", "c11_fixed8_len8", "c11_fixed8_len9", "c11_fixed8_len16", "c11_fixed24_len24",
              "c11_fixed24_len25", "c11_var64_len3", "c11_var64_len4", "c11_var64_len5", "c11_mst_len63", "c11_mst_len64",
-             "c11_mtc_len3", "c11_mtc_len4", "c11_read8", "c11_read24"}
+             "c11_mtc_len3", "c11_mtc_len4", "c11_read8", "c11_read24", "c11_var240_len253", "c11_var128_len256"}
     out = []
     for kind, name, args in re.findall(r"^(fixed_write|var_write|terminated|fixed_read)!\((c11_\w+),([^)]*)\);", src, re.M):
         a = [x.strip() for x in args.split(",")]
@@ -201,7 +201,7 @@ def _c11():
         else:
             b = "fixed-width reader N=%s over every [u8; N] image (ASCII model of the conversion)" % a[0]
             f = ["insim_core::string::binrw_parse_codepage_string::<%s>" % a[0], "insim_core::string::strip_trailing_nul"]
-        out.append(H(name, "c11", "C11", tier="quick" if name in quick else "thorough", unwind=260, cost=60, timeout=600, bounds=b, functions=f))
+        out.append(H(name, "c11", "C11", tier="quick" if name in quick else "thorough", unwind=490, cost=60, timeout=600, bounds=b, functions=f))
     return out
 
 
@@ -322,9 +322,13 @@ def _generated(include_unclosed=False):
             tier = "quick"
         elif n.startswith("c02_plc_car_bit_"):
             tier = "quick" if n in ("c02_plc_car_bit_0", "c02_plc_car_bit_19") else "thorough"
+        elif n.endswith("_w"):
+            tier = "quick" if t <= 100 else "thorough"
         elif n.startswith(("c01_", "c02_")):
             # cheap kinds, plus the irregular (hand-written reader/writer, many sub-fields) kinds even when dearer
             tier = "quick" if basic and (t <= 100 or (kind in quick_kinds and t <= 400)) else "thorough"
+        elif n.startswith("c04_mso_ts"):
+            tier = "quick" if n in ("c04_mso_ts2_body", "c04_mso_ts200_body") else "thorough"
         elif n.startswith("c04_"):
             tier = "quick" if basic and t <= 100 else "thorough"
         elif n.endswith("_codec"):
